@@ -94,15 +94,26 @@ def rule_symmetry(repo, rule):
     W = sorted({loc for _s, loc, _v in writes})
     # the token
     ret = [n for n in ast.walk(ag.node) if isinstance(n, ast.Return) and n.value is not None]
-    if len(ret) != 1 or not isinstance(ret[0].value, ast.Tuple):
+    tokval = ret[0].value if len(ret) == 1 else None
+    tokstmt = None
+    if isinstance(tokval, ast.Name):
+        # token built earlier and returned by name:  bak = (guard, _ignore_errors, LinComb.ONE) ... return bak
+        defs = [n for n in ast.walk(ag.node) if isinstance(n, ast.Assign) and len(n.targets) == 1 and norm(n.targets[0]) == tokval.id]
+        if len(defs) == 1:
+            tokstmt, tokval = defs[0], defs[0].value
+    if len(ret) != 1 or not isinstance(tokval, ast.Tuple):
         rule.undecided(ag.loc(), ag.fq, norm(ret), "token is not a single literal tuple")
         return None
-    names = [norm(e) for e in ret[0].value.elts]
+    names = [norm(e) for e in tokval.elts]
     saved = []
     cfg = CFG(ag.node)
     dom = cfg.dominators()
     node_of = {id(cfg.stmt[n]): n for n in range(cfg.n) if cfg.kind[n] == "stmt"}
     for nm in names:
+        if nm in ("guard", "_ignore_errors") or nm.endswith("LinComb.ONE"):
+            # the state location is read directly into the token
+            saved.append((nm, "LinComb.ONE" if nm.endswith("LinComb.ONE") else nm, tokstmt))
+            continue
         src = [n for n in ast.walk(ag.node) if isinstance(n, ast.Assign) and len(n.targets) == 1
                and norm(n.targets[0]) == nm]
         if len(src) != 1:
@@ -211,6 +222,12 @@ def rule_release(repo, rule, include_clients=False, skip_field_tokens=False):
                     else:
                         rule.ok(where, fi.fq, "%s released by restore_guard(%s) on every path (%d release sites)" % (
                             norm(s), tok, len(rel)))
+                elif isinstance(s, ast.Assign) and isinstance(s.targets[0], ast.Attribute) and _cm_release(repo, fi, s.targets[0]) is not None:
+                    why = _cm_release(repo, fi, s.targets[0])
+                    if why.startswith("ok:"):
+                        rule.ok(where, fi.fq, norm(s), why[3:])
+                    else:
+                        rule.violation(where, fi.fq, norm(s), why, "%s/cm" % fi.fq)
                 elif isinstance(s, ast.Assign) and isinstance(s.targets[0], ast.Attribute) and skip_field_tokens:
                     rule.note(where, fi.fq, norm(s), "token kept in an object field (block API): decided under C08")
                 elif isinstance(s, ast.Assign) and isinstance(s.targets[0], ast.Attribute):
@@ -221,6 +238,44 @@ def rule_release(repo, rule, include_clients=False, skip_field_tokens=False):
                                    "LinComb.ONE switched" % fld, "%s/field" % fi.fq)
                 else:
                     rule.violation(where, fi.fq, norm(s), "token returned by add_guard is discarded", "%s/discard" % fi.fq)
+
+
+def _cm_release(repo, fi, target):
+    """A token stored in `self.F` by `__enter__` of a class whose `__exit__` releases `self.F` first and on every path,
+    the class being used in `with` statements only: the context-manager protocol guarantees the release.
+    None: not this shape.  'ok:...' or a violation message."""
+    if fi.name != "__enter__" or fi.cls is None or not fi.params:
+        return None
+    if not (isinstance(target.value, ast.Name) and target.value.id == fi.params[0]):
+        return None
+    ex = fi.cls.methods.get("__exit__")
+    if ex is None or not ex.params:
+        return None
+    fld = target.attr
+    cfg = CFG(ex.node)
+    rel = set()
+    for n in range(cfg.n):
+        st = cfg.stmt[n]
+        if st is None or cfg.kind[n] not in ("stmt", "test", "loop"):
+            continue
+        for cc in calls_in(own_stmt_part(st, cfg.kind[n])):
+            if callee_name(cc) == "restore_guard" and cc.args and norm(cc.args[0]) == "%s.%s" % (ex.params[0], fld):
+                rel.add(n)
+    if not rel:
+        return "__exit__ does not release the token kept in `%s`" % fld
+    reach = cfg.reach_avoiding(cfg.entry, rel)
+    if cfg.exit in reach or cfg.rexit in reach:
+        return "__exit__ can return or raise before the token kept in `%s` is released" % fld
+    # __exit__ must not swallow nothing relevant here; the class must only be used as `with C(...)`
+    cname = fi.cls.name
+    for m in list(repo.modules.values()):
+        withs = {id(it.context_expr.func) for w in ast.walk(m.tree) if isinstance(w, ast.With) for it in w.items
+                 if isinstance(it.context_expr, ast.Call)}
+        for n in ast.walk(m.tree):
+            if isinstance(n, ast.Name) and n.id == cname and isinstance(n.ctx, ast.Load) and id(n) not in withs:
+                return "context manager `%s` is also used outside a `with` statement (%s:%d): nothing then guarantees __exit__" % (
+                    cname, m.relpath, n.lineno)
+    return "ok:context-manager protocol: `with %s(...)` always runs __exit__, which releases self.%s before anything else" % (cname, fld)
 
 
 def _kind_of(s):
